@@ -888,9 +888,10 @@ func genC03(r *rand.Rand, thorough bool) []c03Case {
 	}
 	// stream transport: the connection makes no progress until 1.7 s after Close() (longer than the
 	// bounded wait) with the open request / response and the data still unsent; 1025 = smallest write that
-	// is not piggybacked on the open request, 32768 = one full segment, 32769 = two data segments
+	// is not piggybacked on the open request, 32768 = one full segment (a second chunk would make Write
+	// itself wait for oLock until the stall is over)
 	for _, sc := range []bool{false, true} {
-		for _, n := range []int{1025, 20000, 32769} {
+		for _, n := range []int{1025, 20000, 32768} {
 			k := mk(false, sc, n, c03Fault{Kind: "tcp-stall", DelayMs: 1700})
 			k.ClientPattern, k.ServerPattern = nil, nil
 		}
@@ -949,7 +950,7 @@ func c03LoadCorpus(c *core.Ctx) []c03Case {
 func init() {
 	core.Register("C03", &core.Scenario{
 		Run: func(c *core.Ctx) {
-			c.Res.Rule = "each case: one transport (TCP / UDP with MTU from {1280,1281,1400,1499,1500}), one direction (client closes / server closes), d of n bytes with n in {1, 1024, one fragment -1/0/+1, 10 KiB, 32 KiB(+1) on TCP, 1 MiB (thorough)}, optional random traffic patterns, the application writes d and calls Close immediately, the peer reads with random read sizes until EOF / error / 20 s bound; UDP fault plans address the datagrams in flight at close: first transmission of one data segment dropped / delayed (overtaken by the close request) / duplicated, close request delayed / duplicated / dropped, data dropped and close dropped; corpus replays first. Oracle: bytes read = d or the final error is not io.EOF (reader still blocked at the bound is counted separately). Distinct = distinct case JSON."
+			c.Res.Rule = "each case: one transport (TCP / UDP with MTU from {1280,1281,1400,1499,1500}), one direction (client closes / server closes), d of n bytes with n in {1, 1024, one fragment -1/0/+1, 10 KiB, 32 KiB(+1) on TCP, 1 MiB (thorough)}, optional random traffic patterns, the application writes d and calls Close immediately, the peer reads with random read sizes until EOF / error / 20 s bound; UDP fault plans address the datagrams in flight at close, deterministically on every run: first transmission of data segment 1 / 2 / last-1 / last dropped / delayed (overtaken by the close request) / duplicated, close request delayed / duplicated / dropped, data dropped and close dropped, a datagram lost in flight at Close with several congestion windows queued behind it on a warmed-up path, a 600 ms delay spike starting at Close on a warmed-up path; TCP: the closing direction stalled until 1.7 s after Close with open request/response and data unsent (n = 1025, 20000, 32768); thorough: random positions, 1 MiB, and one 65 s case in which the reader hears nothing any more (idle timeout); corpus replays first. Oracle: bytes read = d or the final error is not io.EOF (reader still blocked at the bound is counted separately). Distinct = distinct case JSON."
 			c.Correspondence("observed close histories (application calls, every datagram / stream segment decoded by harness/wire) accepted by the Lean close model (close-udp / close-tcp) and reader outcome predicted by it")
 			var cases []c03Case
 			cases = append(cases, c03LoadCorpus(c)...)
